@@ -31,9 +31,10 @@ const (
 	KStruct
 	KUntypedInt
 	KUntypedNil
-	KWrap // a struct with exactly one field (named or embedded), represented by that field
-	KMap  // map[Variable]*Term, represented by the model's dbindings
-	KRec  // a struct with several fields represented by a record of the model (table recReps)
+	KWrap   // a struct with exactly one field (named or embedded), represented by that field
+	KMap    // map[Variable]*Term, represented by the model's dbindings
+	KRec    // a struct with several fields represented by a record of the model (table recReps)
+	KStrSet // map[string]struct{}: a set of strings, represented by list bytes (Model/GoMap.v: strset_add, strset_mem)
 )
 
 // T is a Go type.  Name is the declared name of a named type ("" otherwise).
@@ -116,6 +117,8 @@ func (t *T) String() string {
 		return "struct{" + t.Field + " " + t.Elem.String() + "}"
 	case KMap:
 		return "map[" + t.Key.String() + "]" + t.Elem.String()
+	case KStrSet:
+		return "map[string]struct{}"
 	case KBigInt:
 		return "*big.Int"
 	case KRegexp:
@@ -252,6 +255,8 @@ func coqType(t *T) string {
 		return coqType(t.Elem)
 	case KMap:
 		return "dbindings"
+	case KStrSet:
+		return "list bytes"
 	case KRec:
 		return t.Coq
 	}
